@@ -217,9 +217,16 @@ class Ctx:
             _t()
         except Violation:
             raise
-        except BaseException:
+        except BaseException as e:
             if state['last'] is not None and state['t0'] is not None and time.time() - state['t0'] > cap:
                 raise state['last']
+            if state['last'] is not None and 'Flaky' in type(e).__name__:
+                # the oracle raised a violation that Hypothesis could not reproduce when it replayed the example:
+                # the code under test carries state between calls (caches, module-level memos).  The violation
+                # was observed against the real code, so it is reported (with the case as first seen).
+                v = state['last']
+                v.msg = v.msg + ' [not reproduced on immediate replay: state carried between calls in the code under test]'
+                raise v
             raise
 
     def fuzz(self, target, runs, max_len=256, corpus=()):
